@@ -2658,16 +2658,17 @@ fn generate_expression(
                         let tyl = module.type_registry.get_type_layer(id);
                         match tyl {
                             ir::TypeLayer::Array(inner_id, Some(len)) => {
-                                get_member_count(inner_id, module) * len as usize
+                                get_member_count(inner_id, module).saturating_mul(len as usize)
                             }
                             ir::TypeLayer::Array(_, None) => {
                                 panic!("Can not cast to unbounded array")
                             }
                             ir::TypeLayer::Struct(id) => {
                                 let sd = &module.struct_registry[id.0 as usize];
-                                let mut count = 0;
+                                let mut count = 0usize;
                                 for member in &sd.members {
-                                    count += get_member_count(member.type_id, module);
+                                    count = count
+                                        .saturating_add(get_member_count(member.type_id, module));
                                 }
                                 count
                             }
@@ -2675,6 +2676,12 @@ fn generate_expression(
                         }
                     }
                     let member_count = get_member_count(unmod_id, context.module);
+
+                    // The value is written once for each element
+                    // Beyond some point that is no longer a reasonable thing to emit
+                    if member_count > 4096 {
+                        return Err(GenerateError::UnsupportedCast);
+                    }
 
                     let no_side_effects = match **expr {
                         ir::Expression::Literal(_)
